@@ -202,7 +202,7 @@ func (e *Engine) frameObligations(fc *fnCtx, c *Contract, params []Val, entry, e
 		return
 	}
 	for _, n := range sortedKeys(exit.Heaps) {
-		if n == allocHeap {
+		if n == allocHeap || strings.HasPrefix(n, "$iter") {
 			continue
 		}
 		f, ok := e.frameFormula(fc, n, exit)
